@@ -284,7 +284,11 @@ class ConcEnv(_EnvBase):
             raise Infeasible()
         return v
 
-    int = bv
+    def int(self, name, lo=None, hi=None):
+        v = int(self._get(name, lo if lo is not None else (hi if hi is not None else 0)))
+        if (lo is not None and v < lo) or (hi is not None and v > hi):
+            raise Infeasible()
+        return v
 
     def bytes(self, name, n, mode="bv"):
         b = bytes.fromhex(self._get(name, "00" * n)) if n else b""
